@@ -110,10 +110,14 @@ extern ssize_t mpt_encode_cobs(MPT_STRUCT(encode_state) *info, const struct iove
 		}
 		tmp.iov_base = cobs->iov_base;
 		while (len--) {
-			tmp.iov_len  = pos;
-			if ((pos = mpt_memrchr(&tmp, 1, 0)) < 0) {
+			/* no finished message left */
+			if (!pos) {
 				return MPT_ERROR(BadValue);
 			}
+			/* skip own delimiter, message starts behind the previous one */
+			tmp.iov_len  = pos - 1;
+			pos = mpt_memrchr(&tmp, 1, 0);
+			pos = (pos < 0) ? 0 : pos + 1;
 		}
 		info->_ctx = 0;
 		info->done = pos;
